@@ -214,7 +214,7 @@ type vMock struct {
 	startSeq    int64
 	maxAtStart  int // OLLAMA_MAX_LOADED_MODELS as the scheduler sees it when it starts this runner
 	closeEndSeq atomic.Int64
-	failPing    atomic.Bool // sequential workload: the next Ping fails
+	failPing    atomic.Bool // sequential workload: from now on every Ping fails (a runner that stopped answering stays dead: the pending loop may ask twice when it is woken by the unload event of another runner)
 }
 
 var errVScriptedLoad = errors.New("scripted load failure")
@@ -261,7 +261,7 @@ func (m *vMock) Ping(ctx context.Context) error {
 			return errVScriptedPing
 		}
 	}
-	if m.failPing.Swap(false) {
+	if m.failPing.Load() {
 		return errVScriptedPing
 	}
 	return nil
